@@ -227,6 +227,7 @@ type recorder struct {
 	worst   snapT
 	where   map[string]string
 	n       int
+	sparse  bool
 }
 
 func newRecorder(entries []entryT, byPkg map[string][]instT) *recorder {
@@ -239,6 +240,12 @@ func newRecorder(entries []entryT, byPkg map[string][]instT) *recorder {
 }
 
 func (r *recorder) checkpoint(after string) {
+	if explore && os.Getenv("C02_EXPLORE") == "3" {
+		fmt.Printf("DBG before %q: V mapping %q P mapping %q\n", after, tDo("GET", node(uuidV, "lm", "mapping?u=verif"), []byte("[1,2,3,7]")).Body, tDo("GET", node(uuidP, "lm", "mapping?u=verif"), []byte("[1,2,3,7]")).Body)
+	}
+	if r.sparse && !strings.Contains(after, "restart") && !strings.Contains(after, "random tail") {
+		return // (restart run, quick tier: every snapshot crosses the pipe to the child process)
+	}
 	settleLater()
 	now := snapshot(r.entries, r.byPkg)
 	for k, v := range r.before {
@@ -379,6 +386,7 @@ func stability(run *lib.Run, rng *lib.Rand, o lib.Opts, config string) {
 		has[in.Name] = true
 	}
 	rec := newRecorder(entries, byPkg)
+	rec.sparse = restartFn != nil && !o.Thorough()
 	var d0 digT
 	if inProcess {
 		d0 = digest()
@@ -411,8 +419,12 @@ func stability(run *lib.Run, rng *lib.Rand, o lib.Opts, config string) {
 	rec.checkpoint("writes in the child of V")
 
 	// (b) siblings: forked from V's parent, from its grandparent, from the empty root
-	for _, f := range [][3]string{{"sibling forked from V's parent", uuidP, "sib-p"}, {"sibling forked from V's grandparent", uuidG, "sib-g"},
-		{"sibling forked from the empty root", uuidR, "sib-e"}} {
+	forks := [][3]string{{"sibling forked from V's parent", uuidP, "sib-p"}, {"sibling forked from V's grandparent", uuidG, "sib-g"},
+		{"sibling forked from the empty root", uuidR, "sib-e"}}
+	if restartFn != nil && !o.Thorough() {
+		forks = forks[2:] // the restart run goes through a pipe: a shorter history in the quick tier
+	}
+	for _, f := range forks {
 		c, r := tBranch(f[1], f[2])
 		sib := mustOpen("branch "+f[2], c, r)
 		writeBatch(st, entries, byPkg, has, sib, f[0])
@@ -464,9 +476,14 @@ func stability(run *lib.Run, rng *lib.Rand, o lib.Opts, config string) {
 	// random tail: version operations and writes anywhere open
 	open := []string{uuidU, wu}
 	committed := []string{uuidV, uuidW, uuidR, uuidP, uuidG}
+	var leaves []string // committed in the tail, no child yet
+	trunk := uuidU      // the deepest descendant of V on the master branch
 	nops := 40
 	if o.Thorough() {
 		nops = 400
+	}
+	if restartFn != nil {
+		nops = 15
 	}
 	for i := 0; i < nops; i++ {
 		switch k := rng.Intn(12); {
@@ -503,13 +520,24 @@ func stability(run *lib.Run, rng *lib.Rand, o lib.Opts, config string) {
 			if r.Status == 200 {
 				open = append(open[:j], open[j+1:]...)
 				committed = append(committed, u)
+				leaves = append(leaves, u)
 			}
-		case k == 6 || k == 7: // new version of a committed node
-			p := committed[rng.Intn(len(committed))]
+		case k == 6 || k == 7: // new version of a committed node that has no child on its branch yet
+			// (DVID accepts a second newversion on the same branch; the branch then has two heads and
+			// its ancestry can no longer be computed, see sendResolved; the later history keeps branches linear)
+			if len(leaves) == 0 {
+				continue
+			}
+			j := rng.Intn(len(leaves))
+			p := leaves[j]
 			c, r := tNewVersion(p)
 			op("newversion", r)
 			if r.Status == 200 {
 				open = append(open, c)
+				leaves = append(leaves[:j], leaves[j+1:]...)
+				if p == trunk {
+					trunk = c
+				}
 			}
 		case k == 8: // branch
 			p := committed[rng.Intn(len(committed))]
@@ -541,6 +569,40 @@ func stability(run *lib.Run, rng *lib.Rand, o lib.Opts, config string) {
 		}
 	}
 	rec.checkpoint("the random tail")
+	if restartFn != nil {
+		// the trunk continues below V: the node created last on master descends from V, P, G and E, so
+		// the restarted server rebuilds its in-memory state leaf-to-root through all of them
+		op("commit the trunk", tCommit(trunk))
+		if c, r := tNewVersion(trunk); r.Status == 200 {
+			op("newversion of the trunk", r)
+			trunk = c
+			open = append([]string{c}, open...)
+			tPost(node(c, "kv", "key/trunk?u=verif"), []byte("trunk"))
+		} else {
+			op("newversion of the trunk", r)
+		}
+		restartFn()
+		st.Ops = append(st.Ops, "server process shut down; new process started on the same store directories")
+		// clients look at the HEAD first: read every instance at the open nodes before the committed ones
+		for _, u := range open {
+			for _, e := range entries {
+				for _, in := range byPkg[e.Pkg] {
+					if !has[in.Name] || in.Unversioned {
+						continue
+					}
+					for _, sp := range probesFor(e.Pkg, e.Kw, "get", in) {
+						if sp.Snap && e.Kw != "*" {
+							tDo("GET", urlFor(u, in, e.Kw, sp), sp.Body)
+						}
+					}
+				}
+			}
+		}
+		rec.checkpoint("a restart of the server process")
+		// and the restarted server keeps serving writes without disturbing what is committed
+		writeBatch(st, entries, byPkg, has, wu, "child of the unrelated branch W, after the restart")
+		rec.checkpoint("writes after the restart")
+	}
 	if inProcess {
 		d1 := digest()
 		st.NodeV = d0.Node != d1.Node
